@@ -32,7 +32,7 @@ def main():
         'setup_cmd': './setup.sh',
         'hooks': {
             'guard': 'cargo feature "verif"',
-            'enable': 'engeom = { path = "/repo", features = ["verif"] } in the harness crates; cargo +nightly rustc --features verif for the MIR dump',
+            'enable': 'kani crate: engeom = { path = "/repo", features = ["verif"] }; replay crate: default cargo feature hooks = ["engeom/verif"] (falls back to --no-default-features if the hook code does not compile); MIR dump: cargo +nightly rustc --features verif (falls back to no feature; engine M needs no hook)',
             'baseline_off_cmd': 'cd /repo && cargo test --workspace --no-fail-fast --offline',
             'source_commits': hook_c,
             'add_only': True,
